@@ -57,7 +57,7 @@ def run(rep, tier, seed, model_ok=True, effort=1):
             fs.lines = [([rwgen.Seg("text", "download "), rwgen.Seg("occ", 0), rwgen.Seg("text", " "), rwgen.Seg("occ", 1), rwgen.Seg("text", " now")], "\n"),
                         ([rwgen.Seg("text", "end")], "\n")]
             spec["files"].append(fs)
-            scripted = ["update", "no-tag", "update", "vcs-rejects", "allow-dirty", "update"]
+            scripted = ["update", "fetch-fails", "no-tag", "update", "vcs-rejects", "allow-dirty", "update"]
         spec["cfg_prefix"] = ""
         if h == 3:
             # corpus history: a glob entry (*.toml) covers the config file itself with a pattern for another of its lines; the config's own
@@ -125,6 +125,28 @@ def run(rep, tier, seed, model_ok=True, effort=1):
                     trace.append("OBranch")
                     continue
                 date = rwgen.avoid_week53(spec["vp"], date + dt.timedelta(days=(0 if s == 0 else 40) if same_day else r.choice([0, 1, 31, 400])))
+                if op == "fetch-fails":
+                    # a checkout that is behind the newest tag (the bump commit is not in it) and a remote that cannot be reached: with fetching on,
+                    # the update stops -- it neither forgets the local tags nor releases a version at or below the newest tag
+                    if not tags0 or n0 < 2:
+                        continue
+                    head = prj.git("rev-parse", "HEAD").strip()
+                    prj.git("reset", "-q", "--hard", "HEAD~1")
+                    prj.git("remote", "add", "origin", "/nonexistent/remote.git")
+                    before_f = prj.snapshot()
+                    code, out, logs, exc = prj.run(impl, ["update", "--fetch", "--date", date.isoformat()] + spec["flags"])
+                    tags1, n1, _ = git_state(prj)
+                    rep.case((h, s, op), nontrivial=True)
+                    rep.count("op=fetch-fails")
+                    if code == 0 or prj.snapshot() != before_f or tags1 != tags0 or prj.git("rev-parse", "HEAD").strip() != prj.git("rev-parse", head + "~1").strip():
+                        rep.violation("fetching from the remote failed, yet update went on (exit %s): files, commits or tags changed in a checkout that is behind the newest tag" % code,
+                                      input=dict(version_pattern=spec["vp"], start=spec["old"], history_index=h, step=s, op=op, exit=code, tags=tags0, logs=logs[-3:]), **{"class": "fail-changed-state"})
+                    prj.git("remote", "remove", "origin")
+                    for t_ in set(tags1) - set(tags0):
+                        prj.git("tag", "-d", t_)
+                    prj.git("reset", "-q", "--hard", head)
+                    trace.append("OFail")
+                    continue
                 if op == "vcs-rejects":
                     # the repository refuses the commit (a silent pre-commit hook of git itself): the update fails, nothing is committed or tagged;
                     # the half-done work is then discarded and the history goes on from the previous state
